@@ -156,6 +156,13 @@ def worker(args):
     for it in range(args["n"]):
         t = usable[it % len(usable)]
         s, info = searchgen.make_search(rng, model, vocab, t, small=rng.random() < 0.5)
+        if it % 29 == 0 and t.nseg >= 2:
+            # a fully CONCRETE path plus a filter that adds the next key with a search symbol (the filter makes it a search)
+            segs = vocab.valid_segments(t, rng, pool=gen.SAFE_NAME_POOL, small=True)
+            syms = vocab.search_symbols_at(t, t.nseg - 1)
+            if syms and not model.is_search_string("/".join(segs[:-1])):
+                s = "/".join(segs[:-1]) + "?%s=%s" % (t.keys[-1], rng.choice(syms))
+                info = {"ops": ["concrete_plus_symbol_filter", "filter"]}
         rec.ev()
         for op in set(info["ops"]):
             rec.count("op:" + op)
